@@ -17,6 +17,7 @@ type Scenario struct {
 	Clients [][]Op     `json:"clients"`
 	Cfg     RunConfig  `json:"cfg"`
 	Fates   []TaskFate `json:"fates,omitempty"` // per (pipeline, task): forced outcome
+	Store   *StoreScenario `json:"store_scenario,omitempty"` // engine B1 (C09) instead of engine A
 }
 
 type DefSet struct {
@@ -339,6 +340,9 @@ func simpleVars(g gen, badPermille int) map[string]interface{} {
 // the property whose check is running; the profile only biases generation, all
 // monitors run in every profile).
 func Generate(seed uint64, profile string, faults bool) *Scenario {
+	if profile == "C09" {
+		return generateStore(seed)
+	}
 	g := gen{rand.New(rand.NewPCG(seed, 0x5343454e4152494f))}
 	sc := &Scenario{Profile: profile}
 	o := defaultOpts()
